@@ -446,3 +446,196 @@ def case_assembly(case):
         out["assemble"]["real_values"] = vals_real
         out["assemble"]["real_pnz_from_keys"] = [["__P__%s__%s" % (x[i], x[j]) in out["solver"]["propagators"] for j in range(n)] for i in range(n)]
     return out
+
+
+def _analyse_plain(indict):
+    import json
+    import odetoolbox
+    tb.reset_config()
+    try:
+        res = odetoolbox.analysis(json.loads(json.dumps(indict)), disable_stiffness_check=True)
+        return {"ok": True, "solvers": [{"solver": s["solver"], "state_variables": list(s["state_variables"]),
+                                         "update_expressions": {k: str(v) for k, v in s.get("update_expressions", {}).items()},
+                                         "propagators": {k: str(v) for k, v in s.get("propagators", {}).items()},
+                                         "initial_values": dict(s.get("initial_values", {}))} for s in res]}
+    except BaseException as e:
+        return {"ok": False, "error": type(e).__name__, "msg": str(e)[:160]}
+
+
+def case_twin(case):
+    """analysis on an input and on its transformed twin; compare success, analytic sets and update maps / initial values
+    as functions (values at corresponding random points)."""
+    import random
+    import sympy
+    from harness.core import numeval, refsol
+    a = _analyse_plain(case["indict"])
+    b = _analyse_plain(case["twin"])
+    out = {"a_ok": a["ok"], "b_ok": b["ok"], "a_err": a.get("error"), "b_err": b.get("error"), "a_msg": a.get("msg"), "b_msg": b.get("msg"), "problems": []}
+    if not (a["ok"] and b["ok"]):
+        return out
+    vm = case["varmap"]          # original state variable -> twin state variable
+    pm = case.get("parmap", {})
+    ma = case["indict"].get("options", {}).get("differential_order_symbol", "__d")
+    hs = case["indict"].get("options", {}).get("output_timestep_symbol", "__h")
+
+    def anaset(r):
+        return sorted(v for s in r["solvers"] if s["solver"] == "analytical" for v in s["state_variables"])
+    out["a_analytic"], out["b_analytic"] = anaset(a), anaset(b)
+    if sorted(vm.get(v, v) for v in out["a_analytic"]) != out["b_analytic"]:
+        out["problems"].append({"what": "analytic sets differ", "original": out["a_analytic"], "twin": out["b_analytic"]})
+        return out
+
+    def table(r):
+        t = {}
+        for s in r["solvers"]:
+            props = {sympy.Symbol(k): refsol.parse(v, ma) for k, v in s["propagators"].items()}
+            for v, e in s["update_expressions"].items():
+                t[v] = (refsol.parse(e, ma).subs(props), refsol.parse(s["initial_values"][v], ma), s["solver"].split("-")[0])
+        return t
+    ta, tb_ = table(a), table(b)
+    rng = random.Random(case.get("pt_seed", 1))
+    syms = set()
+    for e, iv, _ in ta.values():
+        syms |= e.free_symbols | iv.free_symbols
+    pt = numeval.make_point(syms, rng)
+    for k in list(pt):
+        pt[k] = abs(pt[k])
+    pt_b = {}
+    for k, v in pt.items():
+        name = str(k)
+        pt_b[sympy.Symbol(vm.get(name, pm.get(name, name)))] = v
+    for v, (e, iv, kind) in ta.items():
+        w = vm.get(v, v)
+        if w not in tb_:
+            out["problems"].append({"what": "variable missing in twin", "variable": v})
+            continue
+        e2, iv2, kind2 = tb_[w]
+        extra = {s: sympy.Rational(3, 7) for s in (e2.free_symbols | iv2.free_symbols) if s not in pt_b}
+        pb = dict(pt_b)
+        pb.update(extra)
+        va, vb = numeval.val(e, pt), numeval.val(e2, pb)
+        ia, ib = numeval.val(iv, pt), numeval.val(iv2, pb)
+        if kind != kind2:
+            out["problems"].append({"what": "solver kind differs", "variable": v, "original": kind, "twin": kind2})
+        elif va is None or vb is None:
+            out.setdefault("undefined", 0)
+            out["undefined"] += 1
+        elif not numeval.close(va, vb, __import__("fractions").Fraction(1, 10 ** 9)):
+            out["problems"].append({"what": "update maps differ", "variable": v, "original": float(va), "twin": float(vb)})
+        if ia is not None and ib is not None and not numeval.close(ia, ib, __import__("fractions").Fraction(1, 10 ** 9)):
+            out["problems"].append({"what": "initial values differ", "variable": v, "original": float(ia), "twin": float(ib)})
+    out["compared"] = len(ta)
+    return out
+
+
+def case_dict(case):
+    """Oracle on the returned solver dictionaries: completeness, closure of symbols, faithfulness of initial values
+    and listed parameters, configured marker / time-step symbol used throughout."""
+    import json
+    import random
+    import re
+    import sympy
+    import odetoolbox
+    from harness.core import numeval, refsol
+    indict = case["indict"]
+    opts = indict.get("options", {})
+    marker = opts.get("differential_order_symbol", "__d")
+    hs = opts.get("output_timestep_symbol", "__h")
+    tb.reset_config()
+    try:
+        res = odetoolbox.analysis(json.loads(json.dumps(indict)), **case.get("flags", {"disable_stiffness_check": True}))
+    except BaseException as e:
+        return {"error": type(e).__name__, "msg": str(e)[:160]}
+    problems = []
+    text = json.dumps(indict["dynamics"])
+    input_syms = set(re.findall(r"[A-Za-z_][A-Za-z0-9_]*", text)) | set(indict.get("parameters", {}))
+    expected_vars, user_iv, fun_entries = [], {}, {}
+    for d in indict["dynamics"]:
+        lhs, rhs = d["expression"].split("=")
+        lhs = lhs.strip()
+        o = lhs.count("'")
+        nm = lhs.replace("'", "")
+        if o == 0:
+            fun_entries[nm] = rhs.strip()
+            continue
+        expected_vars += [nm + marker * k for k in range(o)]
+        if "initial_value" in d:
+            user_iv[nm] = d["initial_value"]
+        for k, v in d.get("initial_values", {}).items():
+            user_iv[k.strip().replace("'", marker)] = v
+    allvars = [v for s in res for v in s.get("state_variables", [])]
+    for v in expected_vars:
+        if allvars.count(v) != 1:
+            problems.append({"what": "state variable not in exactly one solver", "variable": v, "count": allvars.count(v)})
+    rng = random.Random(case.get("pt_seed", 1))
+    pvals = {k: sympy.N(refsol.parse(str(v)), 30) for k, v in indict.get("parameters", {}).items()}
+    for s in res:
+        kind = s.get("solver")
+        if not (kind == "analytical" or kind == "numeric" or (isinstance(kind, str) and kind.startswith("numeric-") and len(kind) > 8)):
+            problems.append({"what": "solver kind malformed", "solver": kind})
+        sv = s.get("state_variables", [])
+        if sorted(s.get("update_expressions", {})) != sorted(sv) or sorted(s.get("initial_values", {})) != sorted(sv):
+            problems.append({"what": "not exactly one update expression and one initial value per state variable", "solver": kind,
+                             "state_variables": sv, "update_keys": sorted(s.get("update_expressions", {})), "iv_keys": sorted(s.get("initial_values", {}))})
+            continue
+        props = s.get("propagators", {})
+        allowed = set(allvars) | {hs, "t"} | set(props) | input_syms
+        used_params = set()
+        for group in ("update_expressions", "propagators", "initial_values"):
+            for k, e in s.get(group, {}).items():
+                try:
+                    ex = refsol.parse(str(e), marker)
+                except Exception as ex_:
+                    problems.append({"what": "expression does not parse", "group": group, "key": k, "expr": str(e)[:100]})
+                    continue
+                fs = {str(x) for x in ex.free_symbols}
+                used_params |= fs & set(indict.get("parameters", {}))
+                bad = fs - allowed
+                if bad:
+                    problems.append({"what": "symbol outside the closure", "group": group, "key": k, "symbols": sorted(bad)})
+                pu = {x for x in fs if x.startswith("__P__")}
+                if pu - set(props):
+                    problems.append({"what": "propagator used but not defined", "group": group, "key": k, "symbols": sorted(pu - set(props))})
+                if group == "propagators" and (fs & (set(allvars) | {"t"})):
+                    problems.append({"what": "propagator depends on state or time other than through the step symbol", "key": k, "symbols": sorted(fs & (set(allvars) | {"t"}))})
+                if hs != "__h" and "__h" in fs:
+                    problems.append({"what": "default time-step symbol used although another one is configured", "group": group, "key": k})
+        if marker != "__d":
+            for v in sv:
+                if "__d" in v:
+                    problems.append({"what": "default derivative marker used although another one is configured", "variable": v})
+        # initial values faithful
+        for v in sv:
+            base = v.replace(marker, "")
+            if base in fun_entries:
+                t = sympy.Symbol("t")
+                f = refsol.parse(fun_entries[base], marker)
+                want_e = sympy.diff(f, t, v.count(marker)).subs(t, 0) if v.count(marker) else f.subs(t, 0)
+            elif v in user_iv:
+                want_e = refsol.parse(str(user_iv[v]), marker)
+            else:
+                problems.append({"what": "no user initial value known for variable", "variable": v})
+                continue
+            got_e = refsol.parse(str(s["initial_values"][v]), marker)
+            syms = want_e.free_symbols | got_e.free_symbols
+            pt = numeval.make_point(syms, rng)
+            a, b = numeval.val(want_e, pt), numeval.val(got_e, pt)
+            if a is not None and b is not None and not numeval.close(a, b, __import__("fractions").Fraction(1, 10 ** 10)):
+                problems.append({"what": "initial value differs from the user's", "variable": v, "expected": str(want_e), "observed": str(s["initial_values"][v])})
+        # parameters listed
+        if "parameters" in indict:
+            listed = s.get("parameters")
+            if listed is None:
+                problems.append({"what": "parameters supplied but solver lists none", "solver": kind})
+            else:
+                for p in sorted(used_params):
+                    if p not in listed:
+                        only_iv = not any(p in {str(x) for x in refsol.parse(str(e), marker).free_symbols} for g in ("update_expressions", "propagators") for e in s.get(g, {}).values())
+                        problems.append({"what": "supplied parameter referenced by the solver is not listed", "parameter": p, "referenced_only_by_initial_values": only_iv})
+                    else:
+                        try:
+                            if abs(complex(sympy.N(refsol.parse(str(listed[p])))) - complex(pvals[p])) > 1e-12 * max(1, abs(complex(pvals[p]))):
+                                problems.append({"what": "listed parameter value differs", "parameter": p, "listed": listed[p], "supplied": indict["parameters"][p]})
+                        except Exception:
+                            pass
+    return {"problems": problems, "n_solvers": len(res), "kinds": [s.get("solver") for s in res], "nvars": len(allvars)}
